@@ -20,6 +20,8 @@ import (
 	"errors"
 	"reflect"
 	"sync"
+
+	"gitlab.com/aquachain/aquachain/common/verifhook"
 )
 
 var errBadChannel = errors.New("event: Subscribe argument does not have sendable channel type")
@@ -112,6 +114,7 @@ func (f *Feed) remove(sub *feedSub) {
 		return
 	}
 	f.mu.Unlock()
+	verifhook.Point("feed.remove.afterInbox", f)
 
 	select {
 	case f.removeSub <- ch:
@@ -129,6 +132,7 @@ func (f *Feed) Send(value interface{}) (nsent int) {
 	rvalue := reflect.ValueOf(value)
 
 	f.once.Do(f.init)
+	verifhook.Point("feed.Send.beforeLock", f)
 	<-f.sendLock
 
 	// Add new cases from the inbox after taking the send lock.
@@ -141,6 +145,7 @@ func (f *Feed) Send(value interface{}) (nsent int) {
 		panic(feedTypeError{op: "Send", got: rvalue.Type(), want: f.etype})
 	}
 	f.mu.Unlock()
+	verifhook.Point("feed.Send.locked", f)
 
 	// Set the sent value on all channels.
 	for i := firstSubSendCase; i < len(f.sendCases); i++ {
@@ -182,6 +187,7 @@ func (f *Feed) Send(value interface{}) (nsent int) {
 		f.sendCases[i].Send = reflect.Value{}
 	}
 	f.sendLock <- struct{}{}
+	verifhook.Point("feed.Send.unlocked", f)
 	return nsent
 }
 
